@@ -58,7 +58,7 @@ Definition enter (cfg : nat -> tcfg) (t : nat) (disabled : bool) (s : cst) : cst
   let x := get_t s t in
   let should_push := negb (memb t (stack s)) in
   let will_enable := negb disabled && negb (enabled x) in
-  let do_meta := patch_meta c && match stack s with [] => true | _ => false end in
+  let do_meta := patch_meta c && Nat.eqb (meta_finders s) 0 in       (* no pyccolo finder installed yet (an outer tracer may have opted out) *)
   let do_settrace := has_sys c && will_enable in
   let x1 := {| enabled := enabled x; hard := disabled; existing := existing x; sys_tracer := sys_tracer x |} in
   let x2 := if will_enable then
@@ -118,7 +118,8 @@ Inductive site_result : Set :=
   | SDelivered (who : list bool)      (* per tracer: handler invoked? *)
   | SPlain                            (* a guard test was False: the pristine copy ran *)
   | SNameErrorFallback                (* function body: a builtins flag is missing, fallback re-ran the pristine body *)
-  | SNameError.                       (* module-level / lambda: NameError propagates to the program *)
+  | SNameError                        (* module-level / lambda: NameError propagates to the program *)
+  | SFinders (n : nat).               (* pseudo-result used only in logs (kind KSys): pyccolo finders on sys.meta_path while the site ran *)
 Definition fires (s : cst) (t : nat) : bool := memb t (stack s) && negb (hard (get_t s t)).
 Definition run_site (s : cst) (k : kind) : site_result :=
   let who := map (fun t => fires s t) (seq 0 (ntr s)) in
@@ -167,7 +168,7 @@ Fixpoint run_item (cfg : nat -> tcfg) (i : item) (s : cst) {struct i} : bool * c
       let '(s1, c) := enter cfg t (hard (get_t s t)) s in
       let '(r, s2, lg) := items_of (run_item cfg) body s1 in
       (r, exit_ctx cfg c s2, lg)
-  | ISite k => (false, s, [(k, run_site s k); (KSys, SDelivered (sys_who s))])
+  | ISite k => (false, s, [(k, run_site s k); (KSys, SDelivered (sys_who s)); (KSys, SFinders (meta_finders s))])
   | IRaise => (true, s, [])
   | ITry body => let '(r, s2, lg) := items_of (run_item cfg) body s in (false, s2, lg)
   end.
